@@ -22,7 +22,7 @@ import dump_sites  # noqa: E402
 PID = "C16"
 GEN_GROUPS = ["SiteLim", "Sites"]
 TARGETS = ["coq/Props/C16.vo", "coq/Model/Sites.vo"]
-CASES = {"quick": 160, "thorough": 3616}   # 12 prelude cases + 36 configurations x 4 / 100 interleaved rounds
+CASES = {"quick": 190, "thorough": 3820}   # 12 prelude cases + 36 configurations x 4 / 100 interleaved rounds
 SHARD = 18
 CORR_HEADER = ("From Coq Require Import String ZArith QArith List Bool.\n"
                "From ACN Require Import Base.Num Model.Feasible Gen.Sites Model.Sites.\nImport ListNotations.\n"
@@ -267,6 +267,18 @@ def gen_cases(rng, n, tier):
             for c in (big, small, big, small):
                 cases.append(one_case(rng, ctx[(site, c[2])], c[0], c[1], c[2], c[3], 1, prev, X=X))
                 prev = [c[0], c[1], c[2]]
+            # long horizons: all-zero schedules with ONE over-limit column, at the indices a block-wise check
+            # could skip (127, 255, the last one) and at harmless ones
+            if site != "jpl":
+                for T, k in rng.sample([(128, 127), (129, 127), (256, 255), (257, 255), (257, 256), (200, 199),
+                                        (129, 128), (130, 0)], 3):
+                    scale = rng.choice([1.3, 1.3, 0.9])
+                    XL = [[0.0] * T for _ in range(len(x))]
+                    for i, v in enumerate(x):
+                        XL[i][k] = float(v) / 0.97 * scale
+                    cases.append(one_case(rng, ctx[(site, big[2])], big[0], big[1], big[2], big[3], T, prev, X=XL))
+                    cases[-1]["kind"] += "/long-T%d-col%d" % (T, k)
+                    prev = [big[0], big[1], big[2]]
         except Exception as e:  # noqa
             cases.append(crash_case(site, False, 0, e))
     rounds = max(1, (n - len(cases)) // len(cfgs))
@@ -341,7 +353,7 @@ def one_case(rng, cx, site, basic, idx, kw, T, prev, X=None):
     inp = dict(site=site, basic=basic, idx=idx, X=X, T=T, before=prev)
     sig = [site, idx, X]
     return dict(input=inp, impl=impl, coq=coq, ambiguous=amb, nontrivial=True,
-                kind="%s/%s/%s/%s/%s" % (site, "v%g" % kw.get("voltage", 208), kind, "+".join(sorted(set(colkinds))),
+                kind="%s/%s/%s/%s/%s" % (site, "v%g%s" % (kw.get("voltage", 208), "/" + kw["_alias"] if kw.get("_alias") else ""), kind, "+".join(sorted(set(colkinds))),
                                          "feasible" if impl["feasible"] else "infeasible"),
                 sig=sig)
 
